@@ -41,6 +41,28 @@ template <class C> static vj::value bshape(const std::vector<std::vector<long>>&
     return crash_res("arity");
 }
 
+// fixed-dimension shape containers (std::array<size_t,N>): the dimension is a compile-time property, dispatched over 1..4
+template <size_t N> static std::array<size_t, N> arr_of(const std::vector<long>& s) { std::array<size_t, N> a{}; for (size_t i = 0; i < N; i++) a[i] = (size_t)s[i]; return a; }
+template <size_t N, class F> static vj::value with_dim(size_t d, F&& f) {
+    if constexpr (N == 0) return crash_res("driver:unsupported");
+    else { if (d == N) return f(std::integral_constant<size_t, N>{}); return with_dim<N - 1>(d, f); }
+}
+static vj::value bshape_arr(const std::vector<std::vector<long>>& ss) {
+    for (auto& s : ss) if (s.empty() || s.size() > 4) return crash_res("driver:unsupported");
+    if (ss.size() == 2)
+        return with_dim<4>(ss[0].size(), [&](auto n) { return with_dim<4>(ss[1].size(), [&](auto m) {
+            return shape_project(ix::broadcast_shape(arr_of<decltype(n)::value>(ss[0]), arr_of<decltype(m)::value>(ss[1]))); }); });
+    if (ss.size() == 3 && ss[0].size() <= 3 && ss[1].size() <= 3 && ss[2].size() <= 3)
+        return with_dim<3>(ss[0].size(), [&](auto n) { return with_dim<3>(ss[1].size(), [&](auto m) { return with_dim<3>(ss[2].size(), [&](auto k) {
+            return shape_project(ix::broadcast_shape(arr_of<decltype(n)::value>(ss[0]), arr_of<decltype(m)::value>(ss[1]), arr_of<decltype(k)::value>(ss[2]))); }); }); });
+    return crash_res("driver:unsupported");
+}
+// mixed: first operand fixed-dimension, second dynamic
+static vj::value bshape_mixed(const std::vector<std::vector<long>>& ss) {
+    if (ss.size() != 2 || ss[0].empty() || ss[0].size() > 4 || ss[1].empty()) return crash_res("driver:unsupported");
+    return with_dim<4>(ss[0].size(), [&](auto n) { return shape_project(ix::broadcast_shape(arr_of<decltype(n)::value>(ss[0]), conv<std::vector<size_t>>(ss[1]))); });
+}
+
 template <class T> static vj::value tuple_project(const T& t) {
     // tuple of arrays -> {ok, crash, shape:[shape...], elems:[elems...]}
     if constexpr (meta::is_maybe_v<T>) { if (!static_cast<bool>(t)) return nothing_res(); return tuple_project(*t); }
@@ -70,6 +92,8 @@ static vj::value handle(const vj::value& c) {
         if (cfg == "veci") return bshape<std::vector<int>>(ss);
         if (cfg == "sv") return bshape<nmtools_static_vector<size_t, 8>>(ss);
         if (cfg == "utlvec") return bshape<nmtools::utl::vector<size_t>>(ss);
+        if (cfg == "arr") return bshape_arr(ss);
+        if (cfg == "arr_vec") return bshape_mixed(ss);
         return crash_res("cfg");
     }
     if (op == "shape_broadcast_to") {
